@@ -600,21 +600,3 @@ example : validate [noFragmentCycles] Schema.empty CycWitness.docCyc ≠ .ok [] 
   decide
 
 end Gql.Validate
-
-section C08
-open Gql Gql.Validate Gql.Validate.Rules
-
-/-- NoFragmentCycles (§5.5.2.2), masked form: for a document with unique fragment names
-    (UniqueFragmentNames / §5.5.1.1) the rule reports nothing iff no fragment reaches itself through
-    spreads.  The direction `Spec.noFragmentCycles d = true → silent` holds without the hypothesis
-    (`noFragmentCycles_silent_of_spec`); unconditionally the rule is silent iff `Acyclic d`
-    (`validate_noFragmentCycles`, decidable as `acyclicB`); `noFragmentCycles_needs_unique` is the
-    counterexample without the hypothesis. -/
-theorem C08_NoFragmentCycles (s : Schema) (d : QueryDoc) (hu : Spec.fragmentNameUniqueness d = true) :
-    validate [noFragmentCycles] s d = .ok [] ↔ Spec.noFragmentCycles d = true :=
-  noFragmentCycles_iff s d hu
-
-#print axioms C08_NoFragmentCycles
-#print axioms Gql.Validate.validate_noFragmentCycles
-#print axioms Gql.Validate.noFragmentCycles_needs_unique
-end C08
